@@ -55,6 +55,137 @@ func (e *Env) child() *Env {
 
 var untypedInt = types.Typ[types.UntypedInt]
 
+// trGoal translates a formula that is about to be PROVED: universal quantifiers in positive
+// position (top level, right of an implication, under a conjunction) are skolemised here, with fresh
+// constants, instead of being left to the solver under a negation (the installed solvers are far more
+// reliable on "facts and not body[c]" than on "not (forall x. body)").
+func (vc *VC) trGoal(e Expr, env *Env) string {
+	switch x := e.(type) {
+	case *EQuant:
+		if x.Forall && len(x.Vars) > 0 {
+			e2 := env.child()
+			for _, b := range x.Vars {
+				t := vc.parseType(b.Type, env.pkg)
+				vc.fresh++
+				sk := vc.declare(fmt.Sprintf("sk_%s_%d", b.Name, vc.fresh), vc.sortOf(t))
+				e2.vars[b.Name] = TV{T: t, S: sk}
+				if vc.goalSks != nil {
+					vc.goalSks[b.Name] = e2.vars[b.Name]
+				}
+			}
+			return vc.trGoal(x.Body, e2)
+		}
+	case *EBin:
+		switch x.Op {
+		case "==>":
+			return imp(vc.trBool(x.X, env), vc.trGoal(x.Y, env))
+		case "&&":
+			return and(vc.trGoal(x.X, env), vc.trGoal(x.Y, env))
+		}
+	}
+	return vc.trBool(e, env)
+}
+
+// trGoalHyp: like trGoal for a loop invariant on the back edge, and in addition the instances of
+// the same clause in the loop-head state (where it was assumed) at the skolem constants.
+func (vc *VC) trGoalHyp(e Expr, now, head *Env, depth int) (goal string, hyps []string) {
+	switch x := e.(type) {
+	case *EQuant:
+		if x.Forall && len(x.Vars) > 0 {
+			n2, h2 := now.child(), head.child()
+			for _, b := range x.Vars {
+				t := vc.parseType(b.Type, now.pkg)
+				var tv TV
+				if given, ok := vc.goalBind[b.Name]; ok {
+					tv = vc.coerceInt(given, t)
+					tv.T = t
+				} else {
+					vc.fresh++
+					tv = TV{T: t, S: vc.declare(fmt.Sprintf("sk_%s_%d", b.Name, vc.fresh), vc.sortOf(t))}
+					if vc.goalSks != nil {
+						vc.goalSks[b.Name] = tv
+					}
+				}
+				n2.vars[b.Name] = tv
+				h2.vars[b.Name] = tv
+			}
+			return vc.trGoalHyp(x.Body, n2, h2, depth+1)
+		}
+	case *EBin:
+		switch x.Op {
+		case "==>":
+			g, hs := vc.trGoalHyp(x.Y, now, head, depth)
+			if len(hs) > 0 {
+				a := vc.trBool(x.X, head)
+				for i := range hs {
+					hs[i] = imp(a, hs[i])
+				}
+			}
+			return imp(vc.trBool(x.X, now), g), hs
+		case "&&":
+			g1, h1 := vc.trGoalHyp(x.X, now, head, depth)
+			g2, h2 := vc.trGoalHyp(x.Y, now, head, depth)
+			return and(g1, g2), append(h1, h2...)
+		}
+	}
+	if depth > 0 {
+		hyps = []string{vc.trBool(e, head)}
+	}
+	return vc.trBool(e, now), hyps
+}
+
+// applyInstances: `instance @target of loop N @source with ...` hints for the clause being proved.
+// Each adds an instance of a loop invariant in the state where that invariant was assumed (the head
+// of its loop): an instance of an assumed fact, so it can help a proof but never make one unsound.
+func (vc *VC) applyInstances(target string, sks map[string]TV) {
+	if vc.fc == nil {
+		return
+	}
+	for _, h := range vc.fc.Hints {
+		if h.Kind != "instance" || h.Label != target {
+			continue
+		}
+		var li *loopInfo
+		for _, l := range vc.loops {
+			if l.ord == h.SrcLoop {
+				li = l
+			}
+		}
+		if li == nil || li.lc == nil {
+			vc.unsupportedf("CONTRACT-UNRESOLVED instance %s: no loop %d with invariants", h.Src, h.SrcLoop)
+			continue
+		}
+		if li.hdrSt == nil {
+			continue // this program point comes before the loop: nothing was assumed yet
+		}
+		var src *Clause
+		for i := range li.lc.Invariants {
+			if li.lc.Invariants[i].Label == h.SrcLabel {
+				src = &li.lc.Invariants[i]
+			}
+		}
+		if src == nil {
+			vc.unsupportedf("CONTRACT-UNRESOLVED instance %s: loop %d has no invariant @%s", h.Src, h.SrcLoop, h.SrcLabel)
+			continue
+		}
+		head := vc.loopEnv(li, nil, li.hdrSt).child()
+		for n, tv := range sks {
+			head.vars[n] = tv
+		}
+		bind := map[string]TV{}
+		for _, b := range h.Binds {
+			bind[b.Name] = vc.tr(b.E, head)
+		}
+		saveB, saveS := vc.goalBind, vc.goalSks
+		vc.goalBind, vc.goalSks = bind, nil
+		_, hyps := vc.trGoalHyp(src.E, head, head, 0)
+		vc.goalBind, vc.goalSks = saveB, saveS
+		for _, hy := range hyps {
+			vc.addFact("assume", imp(vc.reach[li.header.Index], hy))
+		}
+	}
+}
+
 func (vc *VC) trBool(e Expr, env *Env) string {
 	tv := vc.tr(e, env)
 	return tv.S
